@@ -18,7 +18,7 @@ EXPLANATION = (
     "the cap by the very Irr that is returned. C13.c (index spaces): Schedule is built on ClockStruct.time_span and read "
     "at the time-step counter; SMT is read at int(growth_stage)-1 and growth_stage is set to 1 on the first day of a "
     "season before it is used. C13.d: each strategy's parameter is read only inside that strategy's branch. C13.e: the daily schedule is aligned with the simulation days by label; a day offset used as an array position "
-    "must be checked against 0 and the length (negative offsets wrap). C13.f: the interval day test is (dap - 1) % interval == 0 (normal form). C13.g: the net-irrigation refill uses each layer's own threshold (= C04.e). C13.h: the growth-stage lengths of compute_crop_calendar are derived by the same expressions in the calendar-day and the degree-day branch (modulo the CD suffix) and the degree-day branch reads no calendar-day parameter - the end of stage 1 selects the threshold of the soil-moisture strategy. C13.i: the daily schedule array is built from the schedule's Depth column by name (or zeros). C13.j (= C07.l; what 'in season' means for C13.a): the step sets growing_season = True only under planting date reached, harvest date not reached, crop not mature and crop not dead (control dependences, tests on locals expanded) - a season that goes on after the crop has died keeps irrigating a field whose harvest is already reported. C13.k: the net-irrigation requirement returned by transpiration is accumulated from per-compartment terms that are negative for compartments wetter than their critical content; every such accumulation is control dependent on a test `total > 0` whose total is the sum of the very same terms (same polynomial normal form, in the function itself or in a called repository function), or on a test of the term itself - the trigger on the rounded root-zone averages alone lets a slightly negative requirement through. C13.l (T-TIME, time units): below the daily step no addition, subtraction or ordering comparison combines calendar days (dap, delayed_cds, age days, CD-suffixed stages) with growing degree days (gdd_cum, delayed_gdds, gdd) under either calendar type, the unsuffixed crop stages reading as days under CalendarType 1 and as degree days under 2; a quantity of a fixed unit is never assigned a value of the other (the growth stage that selects the soil-moisture threshold is computed from such a time). NOT decided: "
+    "must be checked against 0 and the length (negative offsets wrap). C13.f: the interval day test is (dap - 1) % interval == 0 (normal form). C13.g: the net-irrigation refill uses each layer's own threshold (= C04.e). C13.h: the growth-stage lengths of compute_crop_calendar are derived by the same expressions in the calendar-day and the degree-day branch (modulo the CD suffix) and the degree-day branch reads no calendar-day parameter - the end of stage 1 selects the threshold of the soil-moisture strategy. C13.i: the daily schedule array is built from the schedule's Depth column by name (or zeros). C13.j (= C07.l; what 'in season' means for C13.a): the step sets growing_season = True only under planting date reached, harvest date not reached, crop not mature and crop not dead (control dependences, tests on locals expanded) - a season that goes on after the crop has died keeps irrigating a field whose harvest is already reported. C13.k: the net-irrigation requirement returned by transpiration is accumulated from per-compartment terms that are negative for compartments wetter than their critical content; every such accumulation is control dependent on a test `total > 0` whose total is the sum of the very same terms (same polynomial normal form, in the function itself or in a called repository function), or on a test of the term itself - the trigger on the rounded root-zone averages alone lets a slightly negative requirement through. C13.l (T-TIME, time units): below the daily step no addition, subtraction or ordering comparison combines calendar days (dap, delayed_cds, age days, CD-suffixed stages) with growing degree days (gdd_cum, delayed_gdds, gdd) under either calendar type, the unsuffixed crop stages reading as days under CalendarType 1 and as degree days under 2; a quantity of a fixed unit is never assigned a value of the other (the growth stage that selects the soil-moisture threshold is computed from such a time). C13.m: the planting-day refill of pre_irrigation (stores into the water content, non-zero returned depth) is unreachable once the edges on which irrigation_method == 4 holds are removed. NOT decided: "
     "the ((dap-1) % k), the threshold comparison and the refill amount (numeric).")
 
 
@@ -334,6 +334,45 @@ def rule_k(chk, prog):
     chk.floor("C13.k", n, 1, "accumulations of the net-irrigation requirement in transpiration")
 
 
+def rule_m(chk, prog):
+    """C13.m (constant depth / interval / schedule / threshold apply nothing but their own depth): the planting-day refill of pre_irrigation is
+    a feature of net irrigation alone - every store of pre_irrigation into the water content, and every non-zero definition of the returned
+    depth, is unreachable once the edges on which `irrigation_method == 4` holds are removed (a guard `method < 4` lets method 5 in)."""
+    from ..rdef import flow_of, ENTRY
+    pi = prog.find_func("pre_irrigation")
+    flow = flow_of(pi)
+    cfg = flow.cfg
+    where = f"{pi.module}:{pi.qualname}"
+    chk.fn(pi.key)
+    on = set()
+    for t in cfg.live_nodes():
+        c = t.ast
+        if t.kind == "test" and isinstance(c, ast.Compare) and len(c.ops) == 1 and isinstance(c.comparators[0], ast.Constant) and c.comparators[0].value == 4 \
+                and any(isinstance(x, ast.Attribute) and x.attr == "irrigation_method" for x in ast.walk(c.left)):
+            if isinstance(c.ops[0], ast.Eq):
+                on.add((t.id, True))
+            elif isinstance(c.ops[0], ast.NotEq):
+                on.add((t.id, False))
+    n = 0
+    for k in cfg.live_nodes():
+        a = k.ast
+        if not isinstance(a, (ast.Assign, ast.AugAssign)):
+            continue
+        t = a.targets[0] if isinstance(a, ast.Assign) else a.target
+        is_th = isinstance(t, ast.Subscript) and norm(t.value).split(".")[-1] == "th"
+        is_depth = isinstance(t, ast.Name) and "irr" in t.id.lower() and not (isinstance(a.value, ast.Constant) and a.value.value == 0)
+        if not (is_th or is_depth):
+            continue
+        n += 1
+        construct = norm(a)[:90]
+        if on and not cfg.reachable_without_edges(k.id, on):
+            chk.ok("C13.m", where, construct, "only under irrigation_method == 4")
+        else:
+            chk.violation("C13.m", where, construct, "the planting-day refill can run for a strategy other than net irrigation: water enters the soil beyond the strategy's "
+                          "own depth and is not reported in the daily irrigation", loc=pi.loc(a))
+    chk.floor("C13.m", n, 2, "refill stores of pre_irrigation")
+
+
 def run(chk, prog, tier):
     from ._timeunits import time_units
     from ..common import STEP_FN as _STEP, RESET_FN as _RESET
@@ -343,6 +382,7 @@ def run(chk, prog, tier):
     from .c07 import season_flag_guards
     season_flag_guards(chk, prog, "C13.j")
     rule_k(chk, prog)
+    rule_m(chk, prog)
     # ------------------------------------------------------------ C13.a
     configs = [{}, {"IrrMngt.irrigation_method": 0}, {"IrrMngt.irrigation_method": 4}]
     irr_name, irrday_name = step_local(prog, "irr"), step_local(prog, "irr_day")
